@@ -641,9 +641,13 @@ func (l *commitLog) Truncate(offset int64) error {
 		return nil
 	}
 
-	// Delete all following segments.
+	// Delete all following segments, newest first. If this fails or the
+	// process dies partway through, the segments remaining on disk must still
+	// be a contiguous prefix of the log rather than have a gap behind the
+	// truncation offset. Recovery then trims the leader epoch cache to the
+	// end of what is left and the truncation can be retried.
 	deleted := 0
-	for i := idx + 1; i < len(l.segments); i++ {
+	for i := len(l.segments) - 1; i > idx; i-- {
 		if err := l.segments[i].Delete(); err != nil {
 			return err
 		}
